@@ -307,6 +307,7 @@ def run(ctx):
     subquery_clauses(ctx, prog)
     apply_price_rule(ctx, prog)
     optimizer_always_runs(ctx, prog)
+    limit_is_constant(ctx, prog)
 
 
 def subquery_clauses(ctx, prog):
@@ -323,6 +324,24 @@ def subquery_clauses(ctx, prog):
     PRODUCERS = ('bind_projection', 'bind_where', 'bind_groupby', 'bind_having', 'bind_orderby', 'bind_exprs')
     prods = [c for c in b.calls if (c.fn or '').rsplit('::', 1)[-1] in PRODUCERS]
     guards = [c for c in b.calls if (c.fn or '').rsplit('::', 1)[-1] in ('plan_apply', 'contains_subquery')]
+    # DELETE binds its WHERE clause too, and has no plan_apply: scalar sub-queries must be planned or rejected there as well
+    bd = next((x for n, x in prog.bodies.items() if n.endswith('::bind_delete') and 'binder::delete' in n), None)
+    if ctx.anchor(R3, 'binder::delete::bind_delete', bd is not None):
+        ctx.functions_analysed.add(bd.name)
+        wh = [c for c in bd.calls if (c.fn or '').rsplit('::', 1)[-1] == 'bind_where']
+        gd = [c for c in bd.calls if (c.fn or '').rsplit('::', 1)[-1] in ('plan_apply', 'contains_subquery', 'contains_scalar_subquery')]
+        cov = set()
+        for g in gd:
+            for a in g.args[1:2]:
+                if a['k'] != 'const':
+                    cov |= origin_locals_indexed(bd, a['pl']['l'], depth=20)
+        if ctx.anchor(R3, 'bind_delete: bind_where', wh):
+            ok = all(c.dest['l'] in cov for c in wh)
+            ctx.ob(R3, 'bind_delete·bind_where·subqueries-handled', ok,
+                   'the WHERE clause of DELETE ' + ('reaches plan_apply / a sub-query rejection' if ok else 'goes into the plan unchecked'),
+                   [site(bd, c.bb) for c in wh],
+                   what='a scalar sub-query in DELETE .. WHERE is accepted and reaches the executor builder, which panics '
+                        '(`delete from t where a = (select max(x) from s)`: column $1.0 not found from input)')
     ctx.floor(R3, len(prods), 5, 'clause binders called by bind_select')
     covered = set()
     for g in guards:
@@ -454,3 +473,40 @@ def optimizer_always_runs(ctx, prog):
                f'optimize_stage at blocks {sorted(st)}; returns reachable without any stage: {early}', [site(b, x) for x in (early or sorted(st)[:1])],
                what='Optimizer::optimize returns some statements unoptimized: a CREATE VIEW body with a sub-query or a computed LIMIT is stored '
                     'as bound and every later statement over the view panics in the executor builder')
+
+
+def limit_is_constant(ctx, prog):
+    """C17-R6: what the planner unwraps, the binder has checked"""
+    R6 = 'C17-R6'
+    ctx.rule(R6, 'row estimation and the executor builder unwrap the LIMIT and OFFSET of a plan as constants (`expect("limit should be '
+                 'constant")`); so where the binder builds a Limit node, both expressions have passed a constant-expression check that '
+                 'can fail the statement')
+    hit = False
+    for b in prog.bodies.values():
+        if not re.match(r'^binder::', b.name):
+            continue
+        for bb, st in b.aggregates('planner::Expr', 'Limit'):
+            hit = True
+            ctx.functions_analysed.add(b.name)
+            arr = st['rv']['ops'][0] if st['rv'].get('ops') else None
+            ids = []
+            if arr is not None and arr['k'] != 'const':
+                from tmpl import local_defs
+                for _, kind, payload in local_defs(b, arr['pl']['l']):
+                    if kind == 'assign' and payload.get('rv') == 'agg':
+                        ids = [o['pl']['l'] for o in payload.get('ops', [])[:2] if o['k'] != 'const']
+            guards = [c for c in b.calls if re.search(r'is_const(ant)?(_expr)?$', (c.fn or '').rsplit('::', 1)[-1])]
+            cov = set()
+            for g in guards:
+                for a in g.args[1:2]:
+                    if a['k'] != 'const':
+                        cov |= origin_locals_indexed(b, a['pl']['l'], depth=20)
+            src = set()
+            for l in ids:
+                src |= {x for x in origin_locals_indexed(b, l, depth=6)}
+            ok = bool(ids) and bool(guards) and all(cov & origin_locals_indexed(b, l, depth=6) for l in ids) and bool(b.error_exit_blocks())
+            ctx.ob(R6, f'{b.root}·limit-offset-checked-constant', ok,
+                   f'{b.name}: Limit node built at block {bb}; constant checks: {[site(b, g.bb) for g in guards]}', [site(b, bb)],
+                   what='the binder accepts any expression as LIMIT / OFFSET: `select * from t limit a` panics in row estimation '
+                        '("limit should be constant")')
+    ctx.anchor(R6, 'binder: construction of a Limit node', hit)
